@@ -77,7 +77,12 @@ def forward_vs_mujoco(n_models, n_states, seed):
     origin = (k % 2 == 0)
     spec = modelgen.Spec(max_stack=1 if origin else 3, origin_anchor=origin)
     xml, meta = modelgen.generate(rng, spec)
-    sys = mjcf.loads(xml)
+    try:
+      sys = mjcf.loads(xml)
+    except (IndexError, KeyError, ValueError, AssertionError, TypeError) as e:
+      # a generator model is a supported model: the loader failing on it is a violation (of totality), not a limit of this oracle
+      return Result(REFUTED, 'mjcf.loads raises %s: %s on a supported generator model (model %d)' % (type(e).__name__, str(e)[:120], k), witness={'xml': xml},
+                    replay={'reproduced': True, 'raised': repr(e)[:200], 'xml': xml})
     for s in range(n_states):
       q, qd = modelgen.rand_state(rng, sys, 2.0, 1.0)
       issues, nc = compare_forward(xml, q, qd)
